@@ -355,6 +355,7 @@ def gen_market(rng, idx, knobs=None, t0=None, event_id=None):
         upd["r"] = {str(s): runners[s].snapshot() for s in sels}
         market["updates"].append(upd)
     if closes:
+        last_open = copy.deepcopy(market["updates"][-1])
         pt += _spacing(rng, regime, dyadic)
         market["updates"].append(_closing_update(rng, market, market["updates"][-1], pt, k))
         rep = 0
@@ -363,17 +364,17 @@ def gen_market(rng, idx, knobs=None, t0=None, event_id=None):
             pt += _spacing(rng, regime, dyadic)
             u = copy.deepcopy(market["updates"][-1])
             u["pt"] = pt
+            u.pop("acts", None)
+            u.pop("oacts", None)
             market["updates"].append(u)
         if rng.random() < k["p_reopen_after_close"]:
-            # data arrives again: re-opened, then closed again
+            # data arrives again: the market is re-opened, later closed again
             for _ in range(rng.randint(1, 3)):
                 pt += _spacing(rng, regime, dyadic)
-                u = copy.deepcopy(market["updates"][-2 - rep] if len(market["updates"]) >= 2 + rep else market["updates"][0])
+                u = copy.deepcopy(last_open)
                 u["pt"] = pt
                 u["st"] = "OPEN"
-                for rs in u["r"].values():
-                    if rs["st"] in ("WINNER", "LOSER", "PLACED"):
-                        rs["st"] = "ACTIVE"
+                u["ver"] = market["updates"][-1]["ver"] + 1
                 market["updates"].append(u)
             pt += _spacing(rng, regime, dyadic)
             market["updates"].append(_closing_update(rng, market, market["updates"][-1], pt, k))
